@@ -507,6 +507,12 @@ def d5_meta_keys(ctx):
     fa = repo.fn(CLS + "._writemetadata_ap")
     fr = repo.fn("neuropixel.NP2Reconstructor.write_metadata")
     ka = _store_keys(fa, "meta_shank")
+    # keys that other steps of the converter add to the shank ap meta files after they were written (a meta re-read, changed and written back)
+    for q_, f_ in repo.functions.items():
+        if q_.startswith(CLS + ".") and f_ is not fa and "write_meta_data" in src(f_.node) and "read_meta_data" in src(f_.node) and "ap_file" in src(f_.node):
+            for var_ in {loc_name(st_.targets[0].value) for st_ in walk_function(f_.node)
+                         if isinstance(st_, ast.Assign) and isinstance(st_.targets[0], ast.Subscript) and isinstance(st_.targets[0].slice, ast.Constant) and loc_name(st_.targets[0].value)}:
+                ka |= _store_keys(f_, var_)
     kr = _store_keys(fr, "meta_shank")
     pops = set()
     for c in find(fr.node, ast.Call):
@@ -520,6 +526,7 @@ def d5_meta_keys(ctx):
                 pops.add(k)
     if not ka:
         raise AnchorMissing("_writemetadata_ap: no metadata key stored")
+    pops |= {k for k in pops if k}
     left = ka - kr - pops
     ctx.check(left == {"original_meta"}, fr, fr.node, f"written {sorted(ka)} ; restored {sorted(kr)} ; popped {sorted(pops)}",
               "reconstructed metadata differs from the original only by the provenance flag",
